@@ -87,6 +87,8 @@ const (
 	BindStreamEnd // </stream:stream>, and the TCP connection stays open
 	BindInMessage // the bind payload inside a <message type='result'/>: not an IQ, so no answer to the request
 	BindForeignID // an IQ result with the payload, but for another request id
+	BindNoJid     // an IQ result whose <bind/> carries no JID: nothing was bound
+	BindForeignNS // the result is an <iq/> of another namespace, not a stanza of this stream
 )
 
 const (
@@ -642,6 +644,10 @@ func (sc *SrvConn) handle(it *Item) {
 			sc.Send(fmt.Sprintf("<message type='result' id='%s'><bind xmlns='%s'><jid>%s</jid></bind></message>", id, nsBind, xmlEscape(sc.S.BoundJid)))
 		case BindForeignID:
 			sc.Send(fmt.Sprintf("<iq type='result' id='not-%s'><bind xmlns='%s'><jid>%s</jid></bind></iq>", id, nsBind, xmlEscape(sc.S.BoundJid)))
+		case BindNoJid:
+			sc.Send(fmt.Sprintf("<iq type='result' id='%s'><bind xmlns='%s'/></iq>", id, nsBind))
+		case BindForeignNS:
+			sc.Send(fmt.Sprintf("<iq xmlns='urn:example:not-xmpp' type='result' id='%s'><bind xmlns='%s'><jid>%s</jid></bind></iq>", id, nsBind, xmlEscape(sc.S.BoundJid)))
 		}
 	case el.Local == "iq" && el.Child(nsSession, "session") != nil:
 		sc.delay()
